@@ -198,6 +198,7 @@ func transSites(args []string) any {
 	vars := []varSite{}
 	gos := []callSite{}
 	ambient := []callSite{}
+	unordered := []callSite{}
 	ctors := []ctorSite{}
 	typeErrors := []string{}
 
@@ -403,6 +404,9 @@ func transSites(args []string) any {
 							}
 						}
 						if se, ok := x.Fun.(*ast.SelectorExpr); ok {
+							if tv, ok := info.Types[se.X]; ok && se.Sel.Name == "Range" && strings.Contains(tv.Type.String(), "sync.Map") {
+								unordered = append(unordered, callSite{File: rel, Func: fname, Line: fset.Position(x.Pos()).Line, Call: "sync.Map.Range"})
+							}
 							if id, ok := se.X.(*ast.Ident); ok {
 								if v, ok := pkgVars[info.Uses[id]]; ok {
 									v.Calls = append(v.Calls, fname+": "+se.Sel.Name)
@@ -410,6 +414,10 @@ func transSites(args []string) any {
 								if pn, ok := info.Uses[id].(*types.PkgName); ok {
 									p := pn.Imported().Path()
 									full := p + "." + se.Sel.Name
+									if (p == "maps" && (se.Sel.Name == "Keys" || se.Sel.Name == "Values" || se.Sel.Name == "All")) ||
+										(p == "reflect" && (se.Sel.Name == "MapKeys" || se.Sel.Name == "MapRange")) {
+										unordered = append(unordered, callSite{File: rel, Func: fname, Line: fset.Position(x.Pos()).Line, Call: full})
+									}
 									if p == "time" || p == "math/rand" || p == "math/rand/v2" || p == "crypto/rand" ||
 										full == "os.Getenv" || full == "os.Getpid" || full == "os.Hostname" || full == "os.Environ" || full == "os.LookupEnv" {
 										ambient = append(ambient, callSite{File: rel, Func: fname, Line: fset.Position(x.Pos()).Line, Call: full})
@@ -430,7 +438,7 @@ func transSites(args []string) any {
 			vars = append(vars, *v)
 		}
 	}
-	return map[string]any{"map_ranges": ranges, "iterator_ranges": iters, "package_vars": vars, "scheduling": gos, "ambient": ambient, "constructors": ctors, "type_errors": typeErrors}
+	return map[string]any{"map_ranges": ranges, "iterator_ranges": iters, "package_vars": vars, "scheduling": gos, "ambient": ambient, "unordered_calls": unordered, "constructors": ctors, "type_errors": typeErrors}
 }
 
 func identOf(e ast.Expr) *ast.Ident {
